@@ -179,7 +179,7 @@ fn to_stack(buf: &Vec<u8>) -> ([u8; 40], usize) {
     (arr, n)
 }
 
-// @vt prop=C33 tier=quick bound="two rows in one buffer: [positive i64] then [any i64, Null]; then a read at end of buffer" outside="longer sequences; more than 2 columns; other variants in a sequence (every variant is decided singly in c33_rt_*)" timeout=1800
+// @vt prop=C33 tier=thorough bound="two rows in one buffer: [positive i64] then [any i64, Null]; then a read at end of buffer" outside="longer sequences; more than 2 columns; other variants in a sequence (every variant is decided singly in c33_rt_*)" timeout=1800
 vt_proof! { unwind = 37; fn c33_two_rows_sequence() {
     let x: i64 = kani::any(); kani::assume(x > 0);
     let row1 = [Value::Int(x)];
@@ -201,6 +201,33 @@ vt_proof! { unwind = 37; fn c33_two_rows_sequence() {
     kani::cover!(matches!(row2[0], Value::Int(0)), "w:second_row_one_byte_value");
     core::mem::forget((buf, out, row1, row2));
 }}
+// @vt prop=C33 tier=quick bound="two rows in one buffer: [positive i64] then [positive i64, Null]; then a read at end of buffer" outside="other variants in a sequence (every variant is decided singly in c33_rt_*); zero / negative ints in the sequence (thorough)" timeout=1800
+vt_proof! { unwind = 37; fn c33_two_rows_sequence_positive() {
+    let x: i64 = kani::any(); kani::assume(x > 0);
+    let y: i64 = kani::any(); kani::assume(y > 0);
+    let row1 = [Value::Int(x)];
+    let row2 = [Value::Int(y), Value::Null];
+    let mut buf: Vec<u8> = Vec::with_capacity(48);
+    RowSerde::serialize_row_into(&row1, &mut buf);
+    let l1 = buf.len();
+    RowSerde::serialize_row_into(&row2, &mut buf);
+    assert!(l1 == 11 && l1 == RowSerde::row_size(&row1) && buf.len() == l1 + RowSerde::row_size(&row2), "role=sizes_add_up");
+    let (mut arr, n) = to_stack(&buf);
+    assert!(arr[0] == 0 && arr[1] == 1 && arr[2] == 0x16, "role=column_count_field"); arr[0] = 0; arr[1] = 1; arr[2] = 0x16;
+    assert!(arr[11] == 0 && arr[12] == 2 && arr[13] == 0x16 && arr[22] == 0x01, "role=column_count_field"); arr[11] = 0; arr[12] = 2; arr[13] = 0x16; arr[22] = 0x01;
+    let mut out: Out = SmallVec::new();
+    let mut off = 0usize;
+    let r = RowSerde::deserialize_row_into(&arr[..n], &mut off, &mut out);
+    assert!(r.is_ok() && off == 11 && out.len() == 1 && same(&row1[0], &out[0]), "role=first_row_in_order");
+    let r2 = RowSerde::deserialize_row_into(&arr[..n], &mut off, &mut out);
+    assert!(r2.is_ok() && off == n && out.len() == 2, "role=second_row_consumed");
+    assert!(same(&row2[0], &out[0]) && same(&row2[1], &out[1]), "role=second_row_in_order");
+    let r3 = RowSerde::deserialize_row_into(&arr[..n], &mut off, &mut out);
+    assert!(r3.is_err(), "role=end_of_buffer_is_error");
+    kani::cover!(n == 23, "w:both_rows_full_width");
+    core::mem::forget((r, r2, r3, buf, out, row1, row2));
+}}
+
 fn second_row(arr: &mut [u8; 40], n: usize, at: usize, row2: &[Value<'static>; 2], out: &mut Out) {
     assert!(arr[at] == 0 && arr[at + 1] == 2, "role=column_count_field"); arr[at] = 0; arr[at + 1] = 2;
     with_disc!(arr, at + 2, [0x12u8, 0x14u8, 0x16u8], {
